@@ -24,12 +24,16 @@ def _modules():
 
 
 def _copy(v):
-    if isinstance(v, list):
+    t = type(v)
+    if t is list:
         return list(v)
-    if isinstance(v, dict):
+    if t is dict:
         return dict(v)
-    if isinstance(v, set):
+    if t is set:
         return set(v)
+    if isinstance(v, (list, dict, set)):
+        import copy
+        return copy.copy(v)        # subclasses (e.g. a ParseBuffer kept at class level) keep their type and attributes
     return v
 
 
@@ -90,7 +94,7 @@ def restore():
             if val is want:
                 continue
             if mutable:
-                if type(val) is type(want) and val == want:
+                if type(val) is type(want) and val == want and getattr(val, '__dict__', None) == getattr(want, '__dict__', None):
                     continue
                 setattr(owner, attr, _copy(want))
             else:
@@ -142,7 +146,11 @@ def _canon_val(v, depth=0):
     if isinstance(v, re.Match):
         return ['match', v.group(0), v.start(), v.end()]
     if isinstance(v, (list, tuple)):
-        return [_canon_val(x, depth + 1) for x in v]
+        extra = getattr(v, '__dict__', None)
+        res = [_canon_val(x, depth + 1) for x in v]
+        if extra:
+            res.append(['attrs'] + sorted((k, repr(_canon_val(x, depth + 1))) for k, x in extra.items()))
+        return res
     if isinstance(v, (set, frozenset)):
         if len(v) > 64:
             return 'set#%d' % len(v)
